@@ -114,4 +114,5 @@ let conc_roots prop = reg prop "ConcRoots" (fun ver args obs ->
 let () = conc_roots "C05"
 let () = conc_roots "C01"
 let () = conc_roots "C02"
+let () = conc_roots "C03"
 let () = conc_roots "C13"
